@@ -100,12 +100,17 @@ impl FileAppenderBuilder {
         if let Some(parent) = path.parent() {
             fs::create_dir_all(parent)?;
         }
+        // always O_APPEND, so that every write goes to the end of the file: with a private
+        // offset (truncate(true) without append) a second writer on the path or an external
+        // truncation would make the next record overwrite data or leave a hole
         let file = OpenOptions::new()
             .write(true)
-            .append(self.append)
-            .truncate(!self.append)
+            .append(true)
             .create(true)
             .open(&path)?;
+        if !self.append {
+            file.set_len(0)?;
+        }
 
         Ok(FileAppender {
             path,
